@@ -9,9 +9,13 @@
    [subst_all], [entry], [print_entry], [wf_entry], [layout], [wf_word], [wf_rest].
 
    Layer B (optional words, synonyms, clause order, separators, case, level renumbering, storage-neutral
-   clauses) goes through the 600-character clause regexp, structure(), the schema maker and estruct, none
-   of which is modelled: there is NO Coq statement for it.  It is checked metamorphically on the real code
-   by harness/c12.py + Judge/JC12.v (equality of the two observations).  Level: proof, PARTIAL.
+   clauses) goes through the clause regular expression, structure(), the schema maker and estruct.  Its Coq
+   statements live in two companion files: Props/C12b.v (engine C12b: a model of the clause regular expression,
+   every printed entry recognised in every spelling, respelling leaves the clause record unchanged up to the
+   as-written fields) and Props/C12c.v (level renumbering that keeps the nesting gives the same forest, the exact
+   condition under which it does, 66/77/88-level entries are transparent), the latter over Model/Structure.v.
+   What remains unproved is the composition down to layout and decoded values; that is checked metamorphically
+   on the real code by harness/c12.py + Judge/JC12.v (equality of the two observations).  Level: proof, PARTIAL.
 
    Where the faithful model refutes what the property text asks (numbered EJECT/SKIPn lines, indicator
    slash) the full statement is kept as a Definition, its negation is proved, and the proved theorem
